@@ -143,18 +143,24 @@ func validatePolyNotInsidePoly(p1, p2 indexedLines) error {
 	for j := range p2.lines {
 		// Find intersection points.
 		var pts []XY
-		p1.tree.RangeSearch(p2.lines[j].box(), func(i int) error {
+		if err := p1.tree.RangeSearch(p2.lines[j].box(), func(i int) error {
 			inter := p1.lines[i].intersectLine(p2.lines[j])
 			if inter.empty {
 				return nil
 			}
 			if inter.ptA != inter.ptB {
-				panic(fmt.Sprintf("already established that boundaries only "+
-					"intersect at points, but got: %v", inter))
+				// The caller has established that the boundaries only
+				// intersect at points. But line intersection isn't
+				// symmetric under floating point rounding, so an overlap
+				// along a line can still show up here when the operands are
+				// given in the opposite order.
+				return violatePolysMultiTouch.errAtXY(inter.ptA)
 			}
 			pts = append(pts, inter.ptA)
 			return nil
-		})
+		}); err != nil {
+			return err
+		}
 		if len(pts) == 0 {
 			continue
 		}
